@@ -20,6 +20,7 @@ COMP = Component(
     has_arg=lambda m: m == "write",
     gen_arg=lambda cfg, m, rng, tr: rng.randrange(1, 1 << DATA_W),
     want=want, module=__name__,
+    shadow=lambda cfg: ["read", "write"],   # exclusive methods: a second caller must never be served in the same cycle
     trace_extra="PubMatches == Line.pub.level = Len(st.s)",
     trace_extra_names=["PubMatches"],
 )
